@@ -56,6 +56,8 @@ use crate::common::git;
 use crate::common::git_backend;
 use crate::common::git_refs;
 use crate::common::has_id;
+use crate::common::is_duplicate_commit_flake;
+use crate::common::reload_with_tick;
 use crate::common::list_refs;
 use crate::common::read_ref;
 use crate::common::usizes;
@@ -102,7 +104,9 @@ fn import_options() -> GitImportOptions {
 }
 
 struct Env {
-    _test_repo: TestRepo,
+    test_repo: TestRepo,
+    /// counter behind the pinned commit timestamp (common::reload_with_tick)
+    tick: u64,
     _dir: tempfile::TempDir,
     repo: Arc<ReadonlyRepo>,
     git_dir: PathBuf,    // jj's backing Git repository
@@ -174,7 +178,8 @@ impl Env {
         let remote_writer = RefWriter::new(&remote_dir)?;
         let jj_writer = RefWriter::new(&git_dir)?;
         Ok(Self {
-            _test_repo: test_repo,
+            test_repo,
+            tick: 0,
             _dir: dir,
             repo,
             git_dir,
@@ -445,6 +450,9 @@ impl Case<'_> {
             }
             how = "refs copied with git update-ref";
         }
+        // the import may abandon and rewrite commits: give it its own commit-timestamp second
+        self.env.tick += 1;
+        self.env.repo = reload_with_tick(&self.env.test_repo, self.env.tick);
         let mut tx = self.env.repo.start_transaction();
         let opts = import_options();
         let stats = git::import_refs(tx.repo_mut(), &opts)
@@ -702,7 +710,7 @@ impl Runner {
         Ok(())
     }
 
-    fn run_case(&mut self, out: &mut Out, spec: &Value, src: &str) -> Result<(), String> {
+    fn run_case(&mut self, out: &mut Vec<Value>, spec: &Value, src: &str) -> Result<(), String> {
         self.case_no += 1;
         let case_no = self.case_no;
         let par: Vec<Vec<usize>> = spec["par"].as_array().ok_or("case without par")?.iter().map(usizes).collect();
@@ -717,7 +725,7 @@ impl Runner {
         let env = self.env_for(&par)?;
         let mut case = env.start(&otheronly, nb, real, nfill, &place)?;
         let init = case.project()?;
-        out.emit(&json!({"op": "reset", "case": case_no, "par": par, "otheronly": otheronly, "nb": nb,
+        out.push(json!({"op": "reset", "case": case_no, "par": par, "otheronly": otheronly, "nb": nb,
                          "fillers": nfill, "place": place, "src": src, "post": init}));
         for s in spec["steps"].as_array().ok_or("case without steps")? {
             let mut rec = case.step(s);
@@ -725,7 +733,7 @@ impl Runner {
                 rec["match"] = json!(rec.get("post").is_some_and(|p| same_state(exp, p)));
             }
             let stop = matches!(rec["op"].as_str(), Some("error") | Some("panic") | Some("harness_error"));
-            out.emit(&rec);
+            out.push(rec);
             if stop {
                 self.env = None;
                 break;
@@ -737,7 +745,7 @@ impl Runner {
         Ok(())
     }
 
-    fn run_random(&mut self, out: &mut Out, rng: &mut Rng, max_steps: usize, nb: usize) -> Result<(), String> {
+    fn run_random(&mut self, out: &mut Vec<Value>, rng: &mut Rng, max_steps: usize, nb: usize) -> Result<(), String> {
         self.case_no += 1;
         let case_no = self.case_no;
         let par = vec![vec![], vec![1], vec![2], vec![1], vec![4]];
@@ -758,7 +766,7 @@ impl Runner {
         let env = self.env_for(&par)?;
         let mut case = env.start(&otheronly, nb, real, nfill, place)?;
         let init = case.project()?;
-        out.emit(&json!({"op": "reset", "case": case_no, "par": par, "otheronly": otheronly, "nb": nb,
+        out.push(json!({"op": "reset", "case": case_no, "par": par, "otheronly": otheronly, "nb": nb,
                          "fillers": nfill, "place": place, "src": "rnd", "post": init}));
         let mut known = usizes(&init["known"]);
         let mut remote = usizes(&init["remote"]);
@@ -787,7 +795,7 @@ impl Runner {
                 known = usizes(&p["known"]);
                 remote = usizes(&p["remote"]);
             }
-            out.emit(&rec);
+            out.push(rec);
             if stop {
                 failed = true;
                 break;
@@ -814,7 +822,17 @@ pub fn run(opts: &Opts) -> Result<(), String> {
         let (shard, of) = (opts.usize("shard", 0), opts.usize("of", 1));
         for (i, beh) in read_ndjson(path)?.iter().enumerate() {
             if i % of == shard {
-                runner.run_case(&mut out, beh, "tlc")?;
+                let mut buf = vec![];
+                runner.run_case(&mut buf, beh, "tlc")?;
+                if is_duplicate_commit_flake(&buf) {
+                    runner.env = None;
+                    runner.case_no -= 1;
+                    buf.clear();
+                    runner.run_case(&mut buf, beh, "tlc")?;
+                }
+                for r in &buf {
+                    out.emit(r);
+                }
             }
         }
     }
@@ -824,7 +842,19 @@ pub fn run(opts: &Opts) -> Result<(), String> {
         let max_steps = opts.usize("maxsteps", 10);
         let nb = opts.usize("nb", 2);
         for _ in 0..n {
-            runner.run_random(&mut out, &mut rng, max_steps, nb)?;
+            let saved = rng.clone();
+            let mut buf = vec![];
+            runner.run_random(&mut buf, &mut rng, max_steps, nb)?;
+            if is_duplicate_commit_flake(&buf) {
+                runner.env = None;
+                runner.case_no -= 1;
+                rng = saved;
+                buf.clear();
+                runner.run_random(&mut buf, &mut rng, max_steps, nb)?;
+            }
+            for r in &buf {
+                out.emit(r);
+            }
         }
     }
     runner.final_crosscheck()?;
